@@ -29,7 +29,7 @@ func init() {
 		Rule: "driver per input: images: Parse -> Signatures -> Hash -> Bytes -> Open+ReadAll -> Verify(cert); blobs: ParsePKCS7+Verify, ParseAuthenticode+Verify, EFIVariableAuthentication2.Verify. " +
 			"inputs (deterministic, smallest first): seeds = synthetic layouts unsigned and signed + the repository's binaries and signature files; (a) every header field (e_lfanew, NumberOfSections, SizeOfOptionalHeader, Magic, SizeOfHeaders, NumberOfRvaAndSizes, certificate directory address/size, symbol table pointer/count, per section raw pointer/raw size/virtual size/relocation pointer/count) x boundary alphabet, then all pairs of fields (deviation bound 2); " +
 			"(b) WIN_CERTIFICATE header fields of the table (dwLength, revision, type) x alphabet, alone and paired with the directory fields; (c) every truncation point; (d) for blobs the C04 derivation set (every byte position x value set, the structural edit catalogue incl. no signed attributes / no contentType / unknown OIDs / truncated lengths); (e) all byte strings of length <= 2 and all strings of length <= 6 over {00,30,80,82,ff,M,Z} for every entry point. " +
-			"oracle: outcome class must be 'returned' (value or error); panic, process exit (log shim), worker death (OOM under ulimit -v, crash), hang (watchdog) and allocation above 64 MiB + 64*len(input) are violations. non-trivial = the input was executed to completion and classified; distinct = distinct (entry point, input bytes)",
+			"every single-field image mutation is also driven through other io.ReaderAt kinds (ReadAt-only wrapper, readers with advanced cursors, exact and open-ended io.SectionReader). oracle: outcome class must be 'returned' (value or error); panic, process exit (log shim), worker death (OOM under ulimit -v, crash), hang (watchdog) and allocation above 64 MiB + 64*len(input) are violations. non-trivial = the input was executed to completion and classified; distinct = distinct (entry point, input bytes)",
 		Assumptions: []string{"'time and memory proportional to the input' is decided with generous fixed thresholds: it detects unbounded or input-unrelated cost, not modest super-linear growth", "an input needing three coordinated field changes is not explored"},
 		Units:       c13Units,
 		Run:         c13Run,
@@ -80,8 +80,10 @@ func c13Units(tier string) []string {
 	return append(u, "short-strings#image", "short-strings#blob", "bigfiles")
 }
 
-func c13DriveImage(x []byte) {
-	p, err := authenticode.Parse(bytes.NewReader(x))
+func c13DriveImage(x []byte) { c13DriveImageVia(bytes.NewReader(x)) }
+
+func c13DriveImageVia(r io.ReaderAt) {
+	p, err := authenticode.Parse(r)
 	if err != nil {
 		return
 	}
@@ -179,6 +181,12 @@ func c13Run(c *hx.Ctx, tier, unit string) {
 				x := append([]byte{}, img...)
 				putField(x, f, v)
 				robustRun(c, "C13", "image driver", "header field "+fieldClass(f.name), x, func() { c13DriveImage(x) })
+				// the same bytes through the other io.ReaderAt implementations a caller may use
+				// (windows larger than the data, readers without Size, advanced cursors)
+				for _, rk := range readerKinds {
+					rk := rk
+					robustRun(c, "C13", "image driver via "+rk.name, "header field "+fieldClass(f.name), x, func() { c13DriveImageVia(rk.mk(x)) })
+				}
 			}
 		}
 	case "pairs":
